@@ -171,7 +171,8 @@ func (monC19) TaskEnd(s *Sim, t *Task) {
 			allowed["/metadata/annotations/"+k] = true
 		}
 		for _, d := range diffs {
-			if !allowed[d] && !(d == "/metadata/annotations" && !strings.Contains(string(c.Pre), `"annotations"`)) {
+			_, hadAnnotations := meta(toMap(c.Pre))["annotations"]
+			if !allowed[d] && !(d == "/metadata/annotations" && !hadAnnotations) {
 				bad("changed %s", d)
 			}
 		}
